@@ -129,13 +129,34 @@ pub fn raw_name_to_ts_field(value: String) -> String {
         .next()
         .map_or(true, |first| !first.is_numeric());
 
-    let valid = valid_chars && does_not_start_with_digit;
+    // the empty string is not an identifier either
+    let valid = !value.is_empty() && valid_chars && does_not_start_with_digit;
 
     if valid {
         value
     } else {
-        format!(r#""{value}""#)
+        quote_ts_string(&value)
     }
+}
+
+/// Renders `value` as a double-quoted TypeScript string literal, escaping
+/// the characters which would otherwise end the literal or break the line.
+fn quote_ts_string(value: &str) -> String {
+    let mut s = String::new();
+
+    s.push('"');
+    for c in value.chars() {
+        match c {
+            '"' => s.push_str("\\\""),
+            '\\' => s.push_str("\\\\"),
+            '\n' => s.push_str("\\n"),
+            '\r' => s.push_str("\\r"),
+            c => s.push(c),
+        }
+    }
+    s.push('"');
+
+    s
 }
 
 /// Parse all `#[ts(..)]` attributes from the given slice.
